@@ -605,7 +605,10 @@ def probe(ctx):
 
     # P5: su(2) relations of the angular-momentum matrices; the spin-j matrices are generated by them
     for j2 in range(0, 21 if ctx.quick() else 61):
-        jx, jy, jz = numqi.matrix_space.get_angular_momentum_op(j2)
+        ops3 = guarded(lambda: numqi.matrix_space.get_angular_momentum_op(j2))
+        if isinstance(ops3, str):
+            ctx.fail('angular-momentum', f'get_angular_momentum_op({j2}) raised {ops3}', dict(op='angmom', j2=j2)); continue
+        jx, jy, jz = ops3
         j = j2 / 2
         c = lambda A, B: A @ B - B @ A
         err = max(amax(c(jx, jy) - 1j * jz), amax(c(jy, jz) - 1j * jx), amax(c(jz, jx) - 1j * jy),
@@ -617,9 +620,9 @@ def probe(ctx):
         if 1 <= j2 <= 10:
             import scipy.linalg
             a, b, g = rng.uniform(0, 6), rng.uniform(0, 3), rng.uniform(0, 6)
-            D = G.get_su2_irrep(j2, a, b, g)
+            D = guarded(lambda: np.asarray(G.get_su2_irrep(j2, a, b, g)))
             E = scipy.linalg.expm(-1j * a * jz) @ scipy.linalg.expm(-1j * b * jy) @ scipy.linalg.expm(-1j * g * jz)
-            if amax(D - E) > 1e-9:
+            if isinstance(D, str) or amax(D - E) > 1e-9:
                 ctx.fail('irrep-generators', f'get_su2_irrep(j2={j2}) != exp(-i a Jz) exp(-i b Jy) exp(-i g Jz)', dict(op='irrep-gen', j2=j2, angles=[a, b, g]))
             else:
                 ctx.probe_ok(('gen', j2))
@@ -628,7 +631,9 @@ def probe(ctx):
     top = 8 if ctx.quick() else 12
     for j1d in range(0, top + 1):
         for j2d in range(0, top + 1 - j1d):
-            cg = numqi.matrix_space.get_clebsch_gordan_coeffient(j1d, j2d)
+            cg = guarded(lambda: numqi.matrix_space.get_clebsch_gordan_coeffient(j1d, j2d))
+            if isinstance(cg, str):
+                ctx.fail('clebsch-gordan', f'get_clebsch_gordan_coeffient({j1d},{j2d}) raised {cg}', dict(op='cg', j1d=j1d, j2d=j2d)); continue
             rows = np.concatenate([c.reshape(c.shape[0], -1) for _, c in cg], axis=0)
             n = (j1d + 1) * (j2d + 1)
             ok = rows.shape == (n, n) and amax(rows @ rows.T - np.eye(n)) < 1e-10
@@ -641,6 +646,12 @@ def probe(ctx):
                         tot = np.kron(A1, np.eye(j2d + 1)) + np.kron(np.eye(j1d + 1), A2)
                         if amax(C @ tot - AJ @ C) > 1e-10:
                             ok = False
+            if ok:
+                # Condon–Shortley phase convention (the table the source cites): <j1 j1; j2 (j-j1) | j j> > 0 for every block
+                for jd, c in cg:
+                    t = (j2d - jd + j1d) // 2
+                    if not (c[0, 0, t] > 1e-12):
+                        ctx.fail('clebsch-gordan-convention', f'CG block j_double={jd} of ({j1d},{j2d}): <j1 j1; j2 j-j1 | j j> = {c[0, 0, t]} is not positive (Condon-Shortley convention)', dict(op='cg', j1d=j1d, j2d=j2d, jd=jd))
             if not ok:
                 ctx.fail('clebsch-gordan', f'CG table for (j1_double, j2_double)=({j1d},{j2d}) is not an orthogonal intertwiner', dict(op='cg', j1d=j1d, j2d=j2d))
             else:
@@ -760,8 +771,8 @@ def probe(ctx):
     for _ in range(50):
         m, n = rng.randint(-40, 40), rng.randint(-40, 40)
         if m == 0 or n == 0 or abs(m) == abs(n): continue
-        M = G.get_rational_orthogonal2_matrix(m, n)
-        if amax(M @ M.T - np.eye(2)) > 1e-14 or abs(np.linalg.det(M) - 1) > 1e-14:
+        M = guarded(lambda: G.get_rational_orthogonal2_matrix(m, n))
+        if isinstance(M, str) or amax(M @ M.T - np.eye(2)) > 1e-14 or abs(np.linalg.det(M) - 1) > 1e-14:
             ctx.fail('rational-rot2', f'get_rational_orthogonal2_matrix({m},{n}) not in SO(2)', dict(op='rot2', m=m, n=n))
         else:
             ctx.probe_ok(('rot2', m, n))
